@@ -20,6 +20,35 @@ SRC = Path("src/mxlpy/meta/source_tools.py")
 COPY = "ctx.updated(symbols=dict(ctx.symbols))"
 
 EDITS: dict[str, list[tuple[str, str]]] = {
+    # ---- name resolution / lambdas (round-3 closing) ----
+    # only the plain-name merge of _handle_call swapped (a module-level callable shadows the locally imported one)
+    "fns-merge-swapped": [
+        (
+            "            fns = (\n                dict(inspect.getmembers(ctx.parent_module, predicate=callable))\n                | ctx.fns\n            )",
+            "            fns = ctx.fns | dict(\n                inspect.getmembers(ctx.parent_module, predicate=callable)\n            )",
+        )
+    ],
+    # only the merge of _handle_attribute swapped (module constants `consts.K` read from the module-level `consts`)
+    "attr-merge-swapped": [
+        (
+            "    modules = (\n        dict(inspect.getmembers(ctx.parent_module, predicate=inspect.ismodule))\n        | ctx.modules\n    )\n    variables = vars(ctx.parent_module)",
+            "    modules = ctx.modules | dict(\n        inspect.getmembers(ctx.parent_module, predicate=inspect.ismodule)\n    )\n    variables = vars(ctx.parent_module)",
+        )
+    ],
+    # a function-local `import lib` is no longer recorded (the module-level binding of that name stays in force)
+    "local-import-dropped": [("                ctx.modules[name] = importlib.import_module(name)", "                importlib.import_module(name)")],
+    # a locally imported float constant is not bound (the module-level constant of the same name is read instead)
+    "local-float-import-dropped": [("                if isinstance(el, float):\n                    ctx.symbols[name] = sympy.Float(el)\n                elif callable(el):", "                if isinstance(el, float):\n                    pass\n                elif callable(el):")],
+    # lambdas supported by taking the LAST lambda of the source statement
+    "lambda-last-of-statement": [
+        (
+            '    if not isinstance(fn_def := tree.body[0], ast.FunctionDef):\n        msg = "Not a function"\n        raise TypeError(msg)\n    return fn_def',
+            '    if not isinstance(fn_def := tree.body[0], ast.FunctionDef):\n        lams = [n for n in ast.walk(tree) if isinstance(n, ast.Lambda)]\n'
+            '        if getattr(fn, "__name__", None) != "<lambda>" or not lams:\n            msg = "Not a function"\n            raise TypeError(msg)\n'
+            '        lam = lams[-1]\n        fn_def = ast.fix_missing_locations(ast.FunctionDef(name="_", args=lam.args, body=[ast.Return(value=lam.body)], decorator_list=[], type_params=[], lineno=1, col_offset=0))\n'
+            "    return fn_def",
+        )
+    ],
     "drop-simultaneous": [("dict(zip(fn_args, model_args, strict=True)), simultaneous=True", "dict(zip(fn_args, model_args, strict=True))")],
     "struct-eq": [("comparisons.append(sympy.Eq(prev_value, right))", "comparisons.append(prev_value == right)")],
     "if-on-ctx": [(f"[*node.body, *remaining_body],\n                {COPY},", "[*node.body, *remaining_body],\n                ctx,")],
@@ -83,6 +112,7 @@ EDITS: dict[str, list[tuple[str, str]]] = {
 PATCHES = {
     "seeded-c06-1": "/verif/seeded/C06-1/patch.diff", "seeded-c06-3": "/verif/seeded/C06-3/patch.diff", "seeded-c07-2": "/verif/seeded/C07-2/patch.diff",
     "seeded-c06-5": "/verif/seeded/C06-5/patch.diff", "seeded-c06-6": "/verif/seeded/C06-6/patch.diff", "seeded-c06-7": "/verif/seeded/C06-7/patch.diff",
+    "seeded-c06-8": "/verif/seeded/C06-8/patch.diff", "seeded-c06-9": "/verif/seeded/C06-9/patch.diff", "seeded-c06-10": "/verif/seeded/C06-10/patch.diff",
 }
 
 
